@@ -692,6 +692,8 @@ def prove_equal(E, A, B, key, prop=False, timeout_ms=60000, info=None):
                 break
             if r2 == z3.unknown:
                 r = z3.unknown
+    if r in (z3.unsat, z3.sat):
+        cvc5_recheck(E, s, r)
     if r == z3.unsat:
         E.stats.checks_unsat += 1
         return
@@ -702,6 +704,45 @@ def prove_equal(E, A, B, key, prop=False, timeout_ms=60000, info=None):
     inputs = E.snapshot(E._model())
     inputs.update(_model_inputs(E, c, m))
     E.cex.append(dict(key=key, info=info, inputs=inputs))
+
+
+_CVC5 = dict(n=0)
+
+
+def cvc5_recheck(E, solver, z3_result, timeout_ms=20000, budget=25):
+    """thorough tier: the same assertions re-decided by cvc5 1.4 (second
+    opinion on the QF_NRA verdicts; at most `budget` queries per worker)"""
+    import os
+    if os.environ.get("VERIF_TIER") != "thorough" or _CVC5['n'] >= budget:
+        return
+    _CVC5['n'] += 1
+    try:
+        import cvc5
+        slv = cvc5.Solver()
+        slv.setOption("tlimit-per", str(timeout_ms))
+        slv.setLogic("QF_NRA")
+        prs = cvc5.InputParser(slv)
+        prs.setStringInput(cvc5.InputLanguage.SMT_LIB_2_6, solver.to_smt2(),
+                           "q")
+        sm = prs.getSymbolManager()
+        res = None
+        while True:
+            cmd = prs.nextCommand()
+            if cmd.isNull():
+                break
+            out = cmd.invoke(slv, sm).strip()
+            if out in ('sat', 'unsat', 'unknown'):
+                res = out
+    except Exception:
+        E.stats.count("cvc5_error")
+        return
+    if res in ('sat', 'unsat'):
+        if res == str(z3_result):
+            E.stats.count("cvc5_agrees")
+        else:
+            E.stats.count("cvc5_disagrees")
+    else:
+        E.stats.count("cvc5_unknown")
 
 
 def prove_real_nonneg_sum1(E, A, key):
